@@ -49,14 +49,14 @@ Section Reject.
   (* async_device, RX1 or RX2: a rejected frame is a window in which nothing arrived *)
   Theorem async_window_rejected_frame_is_timeout d e rf f rest :
     mac_rejects (ad_mac d) (firstn 256 f) (rf_max_payload rf) ->
-    e_fault e <> Some (e_calls e) ->        (* the rx_single call itself goes through (otherwise nothing is received at all) *)
+    faulty e = false ->        (* the rx_single call itself goes through (otherwise nothing is received at all) *)
     rx_listen enc mac_fn d (with_script e (SvX f :: rest)) rf = rx_listen enc mac_fn d (with_script e (SvT :: rest)) rf.
   Proof.
     intros R NFa. destruct (mac_reject_window _ _ _ 5%Z R) as [buf H].
     unfold rx_listen. unfold call, with_script, tr. cbn [e_script e_calls e_fault e_trace].
-    assert (F : match e_fault e with Some k => k =? e_calls e | None => false end = false).
-    { destruct (e_fault e) as [k|]; [|reflexivity]. apply N.eqb_neq. intros ->. apply NFa. reflexivity. }
-    rewrite F. cbn [negb pop e_script e_calls e_fault e_trace].
+    assert (F : faulty {| e_script := SvX f :: rest; e_calls := e_calls e; e_fault := e_fault e; e_trace := e_trace e |} = false) by exact NFa.
+    assert (F' : faulty {| e_script := SvT :: rest; e_calls := e_calls e; e_fault := e_fault e; e_trace := e_trace e |} = false) by exact NFa.
+    rewrite F, F'. cbn [negb pop e_script e_calls e_fault e_trace].
     rewrite H. cbn [mo_mac mo_resp hmr]. rewrite with_mac_same. reflexivity.
   Qed.
 
@@ -69,7 +69,7 @@ Section Reject.
     rxc_until enc mac_fn k d {| e_script := rest; e_calls := e_calls e + 1; e_fault := None; e_trace := ARxCont :: e_trace e |} rf duration resp.
   Proof.
     intros J NF R. destruct (mac_reject_class_c _ _ _ _ 5%Z J R) as [buf H].
-    cbn [rxc_until]. unfold pop, with_script, call, tr. cbn [e_script e_calls e_fault e_trace]. rewrite NF. cbn [negb].
+    cbn [rxc_until]. unfold pop, with_script, call, tr, faulty. cbn [e_script e_calls e_fault e_trace]. rewrite NF. cbn [negb].
     rewrite H. cbn [mo_mac mo_resp hmr]. rewrite with_mac_same. reflexivity.
   Qed.
 
